@@ -129,7 +129,11 @@ def check_software(p, m, rng, out, nseq, label):
                "generator": lambda: (w_ for w_ in words), "map": lambda: map(int, words),
                "bytes": lambda: bytes(words), "bytearray": lambda: bytearray(words)}[form]()
         out["hist"]["compute-argument:" + form] = out["hist"].get("compute-argument:" + form, 0) + 1
-        got = par.compute(arg)
+        # (sometimes through the parameters' `algorithm` property: the same algorithm, re-parametrised)
+        via = k % 3 == 2
+        got = (par.algorithm(data_width=m) if via else par).compute(arg)
+        if via:
+            out["hist"]["compute-via-parameters.algorithm"] = out["hist"].get("compute-via-parameters.algorithm", 0) + 1
         exp = r.compute(words)
         if ln:
             out["fps"].add(fp([label, m, words[:6], ln]))
@@ -184,6 +188,20 @@ def check_hardware(p, m, rng, out, ncycles, label):
         pv = rng.choice([0.3, 0.6, 0.9, 1.0])
         ps = rng.choice([0.02, 0.08, 0.2])
         for cyc in range(ncycles):
+            if rng.random() < 0.02:
+                # the clock domain's reset held over one edge with nothing valid: the register is back at the
+                # algorithm's initial value ("initial value of the CRC register at reset")
+                drive(0, 0, 0)
+                ctx.set(cd.rst, 1)
+                ctx.set(cd.clk, 1)
+                ctx.set(cd.clk, 0)
+                ctx.set(cd.rst, 0)
+                reg = r.init
+                script.append(["domain-reset"])
+                stats["domain_resets"] = stats.get("domain_resets", 0) + 1
+                if ctx.get(dut.crc) != r.out(reg):
+                    viol.append(("crc-output-mismatch:after-domain-reset", dict(cycle=cyc, crc=ctx.get(dut.crc), model=r.out(reg), script=script[-12:])))
+                    return
             valid = int(rng.random() < pv)
             start = int(rng.random() < ps)
             data = rng.choice([0, (1 << m) - 1, rng.getrandbits(m), rng.getrandbits(m)])
